@@ -14,6 +14,8 @@ func HarnessConcurrent() {
 	db := zzMustOpen(path, c, "conc")
 	zzSetup(db, 0)
 	s0 := zzViewDump(db, "conc/s0")
+	base := uint64(0)
+	_ = db.View(func(tx *Tx) error { base = uint64(tx.ID()); return nil })
 	nReaders := zz.Param("readers", 2)
 	withClose := zz.Param("close", 0) == 1
 	big := c.pageSize * zz.Param("bigpages", 40) // larger than the initial 32 KiB map: the commit must remap
@@ -53,7 +55,17 @@ func HarnessConcurrent() {
 			// the snapshot is one of the committed states, and the one its id names
 			is0, is1, is2 := zzSameKVs(d1, s0), s1 != nil && zzSameKVs(d1, s1), s2 != nil && zzSameKVs(d1, s2)
 			zz.Assert(is0 || is1 || is2, "conc/reader-sees-a-committed-state")
-			_ = id
+			// ... and exactly the one its transaction id names (commit order = id order)
+			switch id {
+			case base:
+				zz.Assert(is0, "conc/reader-id-names-its-version")
+			case base + 1:
+				zz.Assert(is1, "conc/reader-id-names-its-version")
+			case base + 2:
+				zz.Assert(is2, "conc/reader-id-names-its-version")
+			default:
+				zz.Assert(false, "conc/reader-id-is-a-committed-id")
+			}
 			zz.Assert(tx.Rollback() == nil, "conc/reader-close")
 			zz.Reach("reader-done")
 			done <- 1
